@@ -133,6 +133,8 @@ def check_case(ctx, case):
     w = S.counts()
     n_obs = int(w.sum())
     dyadic = case.get("dyadic", False)
+    # a single-precision forecast: statistics are computed in single precision (placement is still decided exactly: dyadic rates)
+    F32 = case.get("rate_dtype") == "float32"
     nsim = len(case["sims"])
     flat = S.rates.ravel().tolist()
     sp = [math.fsum(r) for r in S.rates.tolist()] if not dyadic else S.rates.sum(axis=1).tolist()
@@ -169,7 +171,7 @@ def check_case(ctx, case):
                 continue
             for i in range(nsim):
                 want, at = G.poisson_ll(rates, counts_of(B[i], len(rates)))
-                if not G.close(float(td[i]), want, 1e-9 * (1 + at)):
+                if not G.close(float(td[i]), want, (1e-9 if not F32 else 3e-6) * (1 + at)):
                     ctx.violation("poisson_" + name + ":simulated_event_not_in_inverse_cdf_bin", {"sim": i, "got": float(td[i]), "want": want, "u": U[i][:6], "bins": B[i][:6]})
                     break
             quantile_ok("poisson_" + name, o.value)
@@ -200,7 +202,7 @@ def check_case(ctx, case):
                 want, tol = G.binary_ll(weights, c)
             else:
                 want, tol = G.brier(weights, c), 1e-12
-            if not G.close(float(td[i]), want, tol):
+            if not G.close(float(td[i]), want, tol if not F32 else max(tol, 3e-6 * (1 + abs(want)))):
                 ctx.violation(name + ":simulated_event_not_in_inverse_cdf_bin", {"sim": i, "got": float(td[i]), "want": want, "u": U[i][:6], "bins": B[i][:6]})
                 break
         quantile_ok(name, o.value)
@@ -397,9 +399,20 @@ def cases(draw, max_events=50):
     c = draw(G.setups(max_cells=12, max_mags=4, max_events=max_events, distinct=True))
     if dyadic:
         n = len(c["rates"])
-        if draw(st.booleans()):
+        special = draw(st.integers(0, 7))
+        if special == 0 and n >= 4:
+            # all cumulative sums exact in binary, the last bin holds 2^-53 of the total: its lower cumulative bound is the largest
+            # double below 1, which therefore belongs to that last bin
+            vals = [0.0] * n
+            vals[0], vals[1], vals[2], vals[-1] = 0.5, 0.25, 0.25 - 2.0 ** -53, 2.0 ** -53
+            c["rates"] = vals
+            c["dyadic"] = True
+            c["obs"] = [o for o in c["obs"] if vals[o[0] * c["mags"]["n"] + o[1]] >= 0.25][:3]
+        elif draw(st.booleans()):
             c["rates"] = draw(G.rate_arrays(n, dyadic=True))
             c["dyadic"] = True
+            if special == 1:
+                c["rate_dtype"] = "float32"        # multiples of 1/64: exact in single precision, sums too
         else:
             # small integer rates, arbitrary total (e.g. 10 or 49): exact cumulative sums, rational boundaries
             vals = [draw(st.integers(0, 9)) for _ in range(n)]
